@@ -515,6 +515,77 @@ func c02Work(w *h.W) {
 	c02RecipeWork(w)
 	c02AtomWork(w)
 	c02OccursHistories(w)
+	c02MultiArgHeads(w)
+}
+
+// ---- heads of several arguments against goals that repeat a variable across arguments: what one clause's head
+// unification bound through an earlier argument must be gone when the next clause is tried, and the sharing between
+// the goal's arguments must be there for every clause ----
+
+func c02MultiArgHeads(w *h.W) {
+	dom := []string{"1", "a", "A", "B", "f(A)", "f(1)", "[A|B]"}
+	goals := []string{"p(X, X)", "p(X, Y)", "p(f(Y), Y)", "p(Y, f(Y))", "p(X, f(X))", "A0 = B0, p(A0, B0)", "p(A0, B0), A0 = B0", "p(X, X), X = 1", "p([X|Y], X)", "p(X, 1)", "p(a, X)"}
+	// the call each goal amounts to, for the occurs-check filter
+	eff := []string{"p(X, X)", "p(X, Y)", "p(f(Y), Y)", "p(Y, f(Y))", "p(X, f(X))", "p(X, X)", "p(X, X)", "p(X, X)", "p([X|Y], X)", "p(X, 1)", "p(a, X)"}
+	nc := w.Pick(2, 3)
+	heads := len(dom) * len(dom)
+	for k := 1; k <= nc; k++ {
+		seqs(k, heads, func(idx []int) bool {
+			if !w.Mine() {
+				return true
+			}
+			if w.Expired() {
+				return false
+			}
+			var cls []T
+			for _, h := range idx {
+				cls = append(cls, rd("p("+dom[h/len(dom)]+", "+dom[h%len(dom)]+")"))
+			}
+			pc := &h.ProgCase{Steps: []h.ProgStep{h.Consult(cls...)}}
+			for gi, g := range goals {
+				if c02AnySTO(cls, eff[gi]) {
+					continue // a unification subject to occurs check (X = f(X)): undefined, excluded
+				}
+				pc.Steps = append(pc.Steps, h.Query(rd(g), 6))
+			}
+			runProgCase(w, "multi-arg-heads", pc, k)
+			return true
+		})
+	}
+	// arity 3 over a smaller domain, two clauses
+	d3 := []string{"1", "a", "A", "f(A)"}
+	g3 := []string{"q(X, X, X)", "q(X, X, Y)", "q(X, Y, X)", "q(Y, X, X)", "q(X, Y, Z)", "q(f(X), X, Y)", "q(X, f(X), X)"}
+	h3 := len(d3) * len(d3) * len(d3)
+	seqs(2, h3, func(idx []int) bool {
+		if !w.Mine() {
+			return true
+		}
+		if w.Expired() {
+			return false
+		}
+		var cls []T
+		for _, h := range idx {
+			cls = append(cls, rd("q("+d3[h/16]+", "+d3[(h/4)%4]+", "+d3[h%4]+")"))
+		}
+		pc := &h.ProgCase{Steps: []h.ProgStep{h.Consult(cls...)}}
+		for _, g := range g3 {
+			if c02AnySTO(cls, g) {
+				continue
+			}
+			pc.Steps = append(pc.Steps, h.Query(rd(g), 6))
+		}
+		runProgCase(w, "multi-arg-heads", pc, 2)
+		return true
+	})
+}
+
+func c02AnySTO(cls []T, goal string) bool {
+	for _, c := range cls {
+		if ref.STO(renameVars(c, "H"), rd(goal)) {
+			return true
+		}
+	}
+	return false
 }
 
 // ---- occurs check across choice points: what a failed branch bound (or looked at) is not observable in the next ----
@@ -713,7 +784,7 @@ func c02Replay(b []byte) (string, string, bool) {
 func init() {
 	h.Register(&h.Check{
 		ID: "C02",
-		Rule: "(a) all ordered pairs of terms of depth <= 1 over {a,(b),1,(1.0),X,Y,(Z),[],f/1,g/2,'.'/2} and all (depth-2 term, depth<=1 term) pairs: =/2 both ways, == afterwards, bindings after failure (else-branch, \\+, \\=, next clause), unify_with_occurs_check/2 both ways, subsumes_term/2, copy_term/2, clause-head unification; pairs subject to occurs check (conservative detector) are skipped for =/2 only; (b) all pairs of abstract lists of length <= L over {a,b,97,X} x all pairs of 16 construction recipes (bracket, nested [H|T], partial list bound later/earlier, './2 compound, atom_chars, atom_codes, double-quoted literal, append/3 closed and open, =../2, findall/3, length/2 then bind); (d) atom routes: every atom of one or two characters over one representative of each Unicode general category and the boundary code points (0, 127/128, 255/256, surrogate neighbours, U+FFFD, U+FFFE/FFFF, U+10000, U+10FFFF), reached through every pair of 9 routes (atom_codes, atom_chars, char_code per character, atom_concat joined and split, sub_atom, element of atom_chars, char_code, functor name): the two results are identical (==), unify, compare '=' and have the same length; (e) occurs check across choice points: 6 constructions of a term that holds an unbound variable behind 0..5 (9) further bindings x 6 first branches (bind the variable, walk the term with an occurs-check unification, fail) x 5 occurs-check unifications in the second branch x 4 kinds of choice point (clauses, between/3, member/2, disjunction); (c) binding tree: every insertion order of n <= N variables (atoms and variable chains), every earlier environment version re-checked after every insertion. Non-trivial = decided; distinct = case text.",
+		Rule: "(a) all ordered pairs of terms of depth <= 1 over {a,(b),1,(1.0),X,Y,(Z),[],f/1,g/2,'.'/2} and all (depth-2 term, depth<=1 term) pairs: =/2 both ways, == afterwards, bindings after failure (else-branch, \\+, \\=, next clause), unify_with_occurs_check/2 both ways, subsumes_term/2, copy_term/2, clause-head unification; pairs subject to occurs check (conservative detector) are skipped for =/2 only; (b) all pairs of abstract lists of length <= L over {a,b,97,X} x all pairs of 16 construction recipes (bracket, nested [H|T], partial list bound later/earlier, './2 compound, atom_chars, atom_codes, double-quoted literal, append/3 closed and open, =../2, findall/3, length/2 then bind); (d) atom routes: every atom of one or two characters over one representative of each Unicode general category and the boundary code points (0, 127/128, 255/256, surrogate neighbours, U+FFFD, U+FFFE/FFFF, U+10000, U+10FFFF), reached through every pair of 9 routes (atom_codes, atom_chars, char_code per character, atom_concat joined and split, sub_atom, element of atom_chars, char_code, functor name): the two results are identical (==), unify, compare '=' and have the same length; (e) occurs check across choice points: 6 constructions of a term that holds an unbound variable behind 0..5 (9) further bindings x 6 first branches (bind the variable, walk the term with an occurs-check unification, fail) x 5 occurs-check unifications in the second branch x 4 kinds of choice point (clauses, between/3, member/2, disjunction); (f) heads of several arguments: every predicate of 1..2 (3) clauses p(S, T) over 7 argument shapes (atoms, variables, f(A), f(1), [A|B]) x 11 goals that repeat a variable across arguments (p(X, X), p(f(Y), Y), aliased before and after the call ...) and every pair of clauses q/3 over 4 shapes x 7 goals; (c) binding tree: every insertion order of n <= N variables (atoms and variable chains), every earlier environment version re-checked after every insertion. Non-trivial = decided; distinct = case text.",
 		Explanation: "state = a pair of terms (or an environment version); transition = one unification attempt on the real interpreter (or one Env.Unify on the real persistent tree) compared with the reference Robinson unifier / a plain Go map; the answer substitution is compared up to variable renaming, which makes it a most general unifier iff the reference's is",
 		Assumptions: []string{"reference: ref/unify (Robinson with trail, occurs check optional) and the conservative STO detector", "engine.Variable, engine.NewEnv, Env.Unify and Env.Resolve are exported API and are used directly for the binding-tree sub-check"},
 		Work:        c02Work,
